@@ -83,6 +83,27 @@ def strategy(tier):
     })
 
 
+def enumerate_cases(tier):
+    """a late duplicate of an answered frame arrives while a later frame is
+    outstanding whose (random) index differs from the old one by a power of
+    two or by the size of a 16 bit range: it is not the later frame's answer"""
+    for stride in (63536, 65536, 1 << 24, 256, 32768, 1 << 20, 1 << 29):
+        for dup_latency in (2, 5):
+            for sleeps in (2, 3, 5):
+                for size in (10, 12):
+                    yield {
+                        "tasks": [{"size": 10, "sleeps": 0, "cancel_at": None,
+                                   "wkc": 1},
+                                  {"size": size, "sleeps": sleeps,
+                                   "cancel_at": None, "wkc": 1}],
+                        "frames": [{"latency": 0, "lose": False, "dup": True,
+                                    "dup_latency": dup_latency},
+                                   {"latency": 10, "lose": False,
+                                    "dup": False}],
+                        "unknown": [],
+                        "indexes": [7000, 7000 + stride]}
+
+
 class StallDetected(BaseException):
     pass
 
@@ -127,8 +148,12 @@ class Responder:
                 if tag is not None and tag < len(self.case["tasks"]) else 1
             out[d.data_pos:d.wkc_pos] = xform(d.data)
             out[d.wkc_pos:d.wkc_pos + 2] = struct.pack("<H", wkc)
-        for _ in range(2 if plan["dup"] else 1):
-            if plan["latency"]:
+        for copy in range(2 if plan["dup"] else 1):
+            if copy and plan.get("dup_latency"):
+                # the duplicate comes (much) later than the frame itself
+                self.loop.call_later(plan["dup_latency"] / 1000,
+                                     self.deliver, bytes(out))
+            elif plan["latency"]:
                 self.loop.call_later(plan["latency"] / 1000, self.deliver,
                                      bytes(out))
             else:
@@ -154,10 +179,14 @@ def run_case(case):
     drawn = list(case.get("indexes", []))
 
     def my_randint(a, b):
+        # scripted draws, brought into the range the library asks for
         if drawn:
-            return 5000 + drawn.pop(0)
-        state["index"] += 1
-        return state["index"]
+            d = drawn.pop(0)
+            v = 5000 + d if d < 3 else d
+        else:
+            state["index"] += 1
+            v = state["index"]
+        return a + (v - a) % (b - a + 1)
 
     async def main(loop):
         def counting_ensure(coro):
